@@ -367,6 +367,29 @@ let cmd_any args =
   | Error msg -> msg
   | Ok (t, r) -> "ok" ^ field "tree" (Some (tree_text t)) ^ field "re" (Some (program_hex r)) ^ program_fields t
 
+(* a combinator of combinators: groups of expressions separated by "-" *)
+let cmd_anyn args =
+  match args with
+  | p :: rest -> (
+      let groups =
+        L.rev (L.map L.rev (L.fold_left (fun acc a -> if a = "-" then [] :: acc else (match acc with g :: r -> (a :: g) :: r | [] -> [[a]])) [[]] rest))
+      in
+      match
+        L.map (fun g -> match build_all g with ts -> (match Query.any_tree ts with Base.Ok t -> t | Base.Panic _ -> raise (Build_failed "panic"))) groups
+      with
+      | exception Build_failed "panic" -> "panic"
+      | exception Build_failed _ -> "err"
+      | inner -> (
+          match Query.any_tree inner with
+          | Base.Panic _ -> "panic"
+          | Base.Ok t ->
+              let r = Encode.encode t in
+              if not (Glob.compile_ok r) then "panic"
+              else
+                Printf.sprintf "ok\tm=%s" (if full_match r (to_str (unhex p)) then "1" else "0")
+                ^ field "tree" (Some (tree_text t)) ^ program_fields t))
+  | _ -> failwith "anyn: bad arguments"
+
 let cmd_anymatch args =
   match args with
   | p :: es -> (
@@ -435,7 +458,7 @@ let cmd_part args =
   | Glob.BuildOk (t, _) -> (
       match Query.partition has_casing e t with
       | Base.Panic _ -> "panic"
-      | Base.Ok (Query.PartNone prefix) -> Printf.sprintf "ok\tprefix=%s\tpost=-" (hex_of_str prefix)
+      | Base.Ok (Query.PartNone prefix) -> Printf.sprintf "ok\tprefix=%s\tpost=-\toprefix=%s\topost=-" (hex_of_str prefix) (hex_of_str prefix)
       | Base.Ok (Query.PartSome (prefix, post, pe)) ->
           let r = Encode.encode post in
           if not (Glob.compile_ok r) then "panic"
@@ -453,7 +476,14 @@ let cmd_part args =
             ^ field "pre" (Some (program_hex r))
             ^ field "proot" (Some (when_text (Fold.has_root post)))
             ^ field "pcaps" (Some (caps_text post))
-            ^ field "repart" repart)
+            ^ field "repart" repart
+            (* partitioning the owned glob: ownership does not exist in the model (OwnedFacts: annotations and ownership are
+               irrelevant to every observable), so the owned route repeats the borrowed one *)
+            ^ field "oprefix" (Some (hex_of_str prefix))
+            ^ field "opost" (Some (hex_of_str pe))
+            ^ field "optree" (Some (tree_text post))
+            ^ field "opre" (Some (program_hex r))
+            ^ field "opcaps" (Some (caps_text post)))
   | _ -> "err"
 
 (* ---- escape and character tables ---------------------------------------------------------------------------- *)
@@ -498,6 +528,7 @@ let dispatch (line : string) : string =
       | "mm" -> cmd_mm args
       | "capsok" -> cmd_capsok args
       | "anymm" -> cmd_anymm args
+      | "anyn" -> cmd_anyn args
       | "lang" -> cmd_lang args
       | "anylang" -> cmd_anylang args
       | "not" -> cmd_not args
